@@ -95,7 +95,11 @@ def cases(draw):
     meta_order = "http-equiv-first"
     if announce == "meta" or (not xml and announce in ("bom", "default")
                               and default_encoding is None
-                              and draw(st.integers(0, 2)) == 0):
+                              and draw(st.integers(0, 2)) == 0) or (
+            # an XML document (XHTML) that ALSO carries a meta element
+            # naming the encoding it is in anyway: it stays XML
+            xml and enc == "utf-8" and default_encoding is None and
+            draw(st.integers(0, 2)) == 0):
         mq = draw(st.sampled_from(['"', "'", '"', "'", ""]))
         mtype = draw(st.sampled_from(["text/html", "text/html",
                                       "application/xhtml+xml"]))
@@ -178,6 +182,8 @@ class Bytes(Part):
         yield "enc_" + case["encoding"]
         if case["meta_order"] == "content-first":
             yield "meta_content_first"
+        if case["meta"] and case["xml"]:
+            yield "xml_with_meta"
         if case["meta"] and "=text" in case["meta"].replace(
                 "=application", "=text"):
             yield "meta_unquoted"
